@@ -1,6 +1,7 @@
 package main
 
 import (
+	"bytes"
 	"fmt"
 )
 
@@ -136,6 +137,10 @@ func runHistory(c *Ctx, p *profile) (*hist, error) {
 				o.Prefix = [][]byte{[]byte("a"), []byte("b"), []byte("ab"), {0xff}}[c.Rng.Intn(4)]
 				if c.Rng.Intn(3) == 0 {
 					seek = append(append([]byte{}, o.Prefix...), c.pickKey(p)...) // inside the prefix
+				} else if k := c.pickKey(p); c.Rng.Intn(3) == 0 && !o.Reverse && !h.tupd[t] && bytes.Compare(k, o.Prefix) < 0 && len(k) > 0 {
+					// below the prefix (finding F33): must land on the first key of the prefix.
+					// Read-only transactions only: Seek records the caller's key as read.
+					seek = k
 				}
 			} else if c.Rng.Intn(3) == 0 {
 				seek = c.pickKey(p)
